@@ -250,7 +250,7 @@ def worker(shard, nshards, tier, seed):
             continue
         acc.count("schemas")
         # reflexive + independent rebuild
-        a2, _ = try_build(ta)
+        a2, _ = try_build(ta, leave_args=True)
         for other, tag in ((a, "self"), (a2, "rebuild")):
             acc.count("comparisons")
             if eq3(a, other) is not True or eq3(other, a) is not True:
@@ -366,7 +366,7 @@ def replay(case):
         if ((a == v), (v == a), (a != v), (v != a)) != (want, want, not want, not want):
             out.append(True)
     elif ta == tb:
-        a2, _ = try_build(ta)
+        a2, _ = try_build(ta, leave_args=True)
         if eq3(a, a2) is not True or eq3(a, a) is not True or (a != a2):
             out.append(True)
     return True if True in out else out
